@@ -36,7 +36,11 @@ static void any_state (void)
 	shm_exists = nondet_bool (); shm_id = 0; shm_size = nondet_size_t (); g_shm_next_id = 0; g_orphan_size = 0;
 	g_fd_live = 0; g_map_live = 0; g_shm_key = NULL;
 	g_shm_opens = g_shm_creates = g_fd_closes = g_truncs = g_fstats = g_maps = g_unmaps = g_shm_unlinks = 0; g_shm_other_error = 0;
-	ns_exists = nondet_bool (); ns_id = 0; ns_value = nondet_uint (); g_next_id = 0; g_hdl_open = 0; hdl_id = 0; g_key = NULL; g_env_active = 0; g_peer_opener = 0; g_peer_holds = 0; g_peer_id = 0;
+	ns_exists = nondet_bool (); ns_id = 0; ns_value = nondet_uint (); g_next_id = 0; g_hdl_open = 0; hdl_id = 0; g_key = NULL; g_env_active = 0;
+#ifdef VERIF_PEER_OPENER
+	g_peer_opener = 0; g_peer_holds = 0; g_peer_id = 0;
+#endif
+
 	g_sem_opens = g_sem_closes = g_sem_unlinks = g_sem_waits_ok = g_sem_posts_ok = g_sem_creates = 0; g_sem_other_error = 0;
 	g_err_calls = 0; g_allocs = g_frees = 0; g_alloc_failed = 0; g_key_calls = 0; g_buf = NULL;
 	_Bool faults = nondet_bool (); g_shm_no_other_errors = !faults; g_sem_no_other_errors = !faults;
@@ -182,6 +186,7 @@ void h_lemma_recovery (void)
 	CANARY ("end");
 }
 
+#ifdef VERIF_PEER_OPENER
 /* ---- first-open race: this process creates the segment; a second process opens the same name as soon as the segment
  * exists and opens (creating it if missing) the lock semaphore at ANY point between this process's semaphore system calls.
  * "p_shm_lock/p_shm_unlock behave as one system-wide mutex per name, also when several processes open the name for the
@@ -213,3 +218,4 @@ void h_new_first_open_race (void)
 #endif
 	if (!g_peer_holds) CANARY ("creator alone");
 }
+#endif
